@@ -367,6 +367,41 @@ Theorem c18_mi_relabel_invariant_on_data : forall sched X Y na nb jc (s t : Z ->
 Proof. exact mi_relabel_e2e. Qed.
 Print Assumptions c18_mi_relabel_invariant_on_data.
 
+(* ---- the same two laws for the public wrapper joint_counts with explicit state counts (two data
+        sets, or one data set against itself with the same reordering / relabelling) *)
+Theorem c18_mi_frame_order_invariant_joint_counts : forall X Y X' Y' na nb jc,
+  joint_counts X (Some Y) (Some na) (Some nb) = Some jc ->
+  length X' = length Y' -> Permutation (combine X Y) (combine X' Y') ->
+  exists jc', joint_counts X' (Some Y') (Some na) (Some nb) = Some jc' /\
+    forall a b, (a < width X)%nat -> (b < width Y)%nat ->
+      mutual_information jc' a b = mutual_information jc a b.
+Proof. exact mi_frame_order_invariant_two. Qed.
+Print Assumptions c18_mi_frame_order_invariant_joint_counts.
+
+Theorem c18_mi_frame_order_invariant_self : forall X X' n ny jc,
+  joint_counts X None (Some n) ny = Some jc -> Permutation X X' ->
+  exists jc', joint_counts X' None (Some n) ny = Some jc' /\
+    forall a b, (a < width X)%nat -> (b < width X)%nat ->
+      mutual_information jc' a b = mutual_information jc a b.
+Proof. exact mi_frame_order_invariant_self. Qed.
+Print Assumptions c18_mi_frame_order_invariant_self.
+
+Theorem c18_mi_relabel_invariant_joint_counts : forall X Y na nb jc (s t : Z -> Z),
+  joint_counts X (Some Y) (Some na) (Some nb) = Some jc -> relabel_ok s na -> relabel_ok t nb ->
+  exists jc', joint_counts (map (map s) X) (Some (map (map t) Y)) (Some na) (Some nb) = Some jc' /\
+    forall a b, (a < width X)%nat -> (b < width Y)%nat ->
+      mutual_information jc' a b = mutual_information jc a b.
+Proof. exact mi_relabel_invariant_two. Qed.
+Print Assumptions c18_mi_relabel_invariant_joint_counts.
+
+Theorem c18_mi_relabel_invariant_self : forall X n ny jc (s : Z -> Z),
+  joint_counts X None (Some n) ny = Some jc -> relabel_ok s n ->
+  exists jc', joint_counts (map (map s) X) None (Some n) ny = Some jc' /\
+    forall a b, (a < width X)%nat -> (b < width X)%nat ->
+      mutual_information jc' a b = mutual_information jc a b.
+Proof. exact mi_relabel_invariant_self. Qed.
+Print Assumptions c18_mi_relabel_invariant_self.
+
 (* ---- "computed from pooled counts when several trajectories are given": MI of the pooled table =
         MI of the (accepted) concatenation of the trajectories *)
 Theorem c18_mi_pooled_is_mi_of_concatenation : forall X0 Y0 rest nx ny J,
